@@ -292,10 +292,12 @@ let op_textpair (a : byte list) (b : byte list) : string =
       | _ -> "EQS=-") in
   let rest = (match ha, ia, hb, ib with
       | Ok ta, Ok tia, Ok tb, Ok tib ->
-        Printf.sprintf "EQ=%b,%b,%b,%b CMP=%s,%s,%s,%s HF=%s,%s,%s,%s CONV=%s,%s,%s,%s"
+        let shp t = let n = List.length (name_hash_feed t) in if n = 0 then "-" else Printf.sprintf "b%d" n in
+        Printf.sprintf "EQ=%b,%b,%b,%b CMP=%s,%s,%s,%s HF=%s,%s,%s,%s HS=%s,%s,%s,%s CONV=%s,%s,%s,%s"
           (name_eq ta tb) (name_eq tia tib) (name_eq tia tb) (name_eq tia tb)
           (pcmp (name_cmp ta tb)) (pcmp (name_cmp tia tib)) (pcmp (name_cmp ta tb)) (pcmp (name_cmp tia tib))
           (pfeed (name_hash_feed ta)) (pfeed (name_hash_feed tia)) (pfeed (name_hash_feed tb)) (pfeed (name_hash_feed tib))
+          (shp ta) (shp tia) (shp tb) (shp tib)
           (hex ta) (hex tia) (hex tia) (hex ta)
       | _ -> "PAIR=-") in
   eqs ^ " " ^ rest
